@@ -111,12 +111,6 @@ def run(ctx):
              "poolcap=%d" % rng.choice([1, 1, 2, 4]), "mode=%d" % rng.choice([0, 1, 2, 3, 4, 4]), "abort=%d" % rng.choice([0, 0, 1, 2]),
              "sleep=%d" % rng.choice([0, 0, 0, 3000]), "workyield=%d" % rng.choice([0, 1]),
              "--seed", str(ctx.seed * 100003 + i), "--spur", rng.choice(["0", "0", "0.05"])]
-        # A queue of capacity 1 together with worker retirement is outside what the shipped constants can reach: the
-        # retirement request (a null job) is queued WITHOUT signalling the workers and lingers until the next job; with
-        # capacity 1 it fills the queue for good (back-pressure then waits for a pop that sleeping workers never do).
-        # With capacity >= 2 (the library uses 256) the next push succeeds and wakes the workers.  See DESIGN.md 5/C10.
-        if ("sleep=3000" in a or "mode=3" in a) and "poolcap=1" in a:
-            a[a.index("poolcap=1")] = "poolcap=2"
         k = rng.random()
         if k < 0.6:
             a += ["--pct", str(rng.choice([1, 2, 3])), "--pct-len", str(rng.choice([60, 120, 250]))]
